@@ -415,6 +415,7 @@ impl Graph {
             // I wasn't able to see a performance difference with this on, but it did
             // make compiling the dfa in a large project take ~15 sec, so leaving it off
             .minimize(false)
+            .unicode_word_boundary(true)
             .match_kind(MatchKind::All)
             .start_kind(StartKind::Anchored);
         let dfa = DFA::builder()
